@@ -20,7 +20,8 @@ def is_appender_send(e):
 def clause1(P, res):
     rid = "C19-1"
     res.rule(rid, "one delivery path: the `log` bridge and the `tracing` layer both reach EventProcessor::process_event; appender channels are "
-                  "written only by send_bytes/send_event; in process_event each is called from exactly one site, once per loop iteration")
+                  "written only inside the dispatch path of process_event (the function and the EventProcessor helpers it calls); every send site of process_event is inside the "
+                  "per-appender loop and no second send is reachable before the iterator advances")
     pe = "fibre_logging::subscriber::processor::EventProcessor::process_event"
     entries = [b for b in bodies(P) if (b.impl_trait == "log::Log" and b.name == "log") or (b.impl_trait and b.impl_trait.endswith("Layer") and b.name == "on_event")]
     if len(entries) < 2:
@@ -33,63 +34,70 @@ def clause1(P, res):
         else:
             res.violated(rid, e.id, "this front end does not deliver through EventProcessor::process_event: events emitted through it bypass the routing rules",
                          where=f"{e.file}:{e.line}")
-    allowed = {"fibre_logging::subscriber::processor::EventProcessor::send_bytes", "fibre_logging::subscriber::processor::EventProcessor::send_event"}
-    n = 0
-    for b in bodies(P):
-        for s in b.calls(is_appender_send):
-            n += 1
-            key = f"{b.id}:{s.method}"
-            if b.id in allowed:
-                res.holds(rid, key, "appender channel written by the designated sender helper", where=s.loc)
-            else:
-                res.violated(rid, key, f"appender channel written at {s.loc} outside send_bytes/send_event: the event bypasses filtering or is delivered twice", where=s.loc)
-    if n < 4:
-        res.violated(rid, "appender-sends", f"expected the 4 appender sends of send_bytes/send_event (Block + DropNewest each), found {n}")
     b = P.body(pe)
     if b is None:
         res.unclassified(rid, pe, "process_event not in the fact base")
         return
+    # the dispatch tree: process_event and the EventProcessor helpers it calls (whatever they are named)
+    impl = "fibre_logging::subscriber::processor::EventProcessor::"
+    tree = {pe}
+    work = [b]
+    while work:
+        x = work.pop()
+        for c in P.callees_of(x):
+            if c.startswith(impl) or c.startswith(pe + "::"):
+                if c not in tree and P.body(c) is not None:
+                    tree.add(c)
+                    work.append(P.body(c))
+    n = 0
+    for x in bodies(P):
+        for sd in x.calls(is_appender_send):
+            n += 1
+            key = f"{x.id}:{sd.method}"
+            if x.id in tree:
+                res.holds(rid, key, "appender channel written inside the dispatch path of process_event", where=sd.loc)
+            else:
+                res.violated(rid, key, f"appender channel written at {sd.loc} outside the dispatch path of process_event: the event bypasses filtering or is delivered twice", where=sd.loc)
+    if n < 4:
+        res.violated(rid, "appender-sends", f"expected >= 4 appender sends (bytes and events, Block + DropNewest each), found {n}")
     nexts = {e.pos for e in b.calls() if e.method == "next" and e.callee == "core::iter::traits::iterator::Iterator::next"}
-    sites = [e for e in b.calls() if e.callee_resolved in allowed]
-    by = {}
-    for s in sites:
-        by.setdefault(s.callee_resolved, []).append(s)
-    for fn in sorted(allowed):
-        ss = by.get(fn, [])
-        key = f"process_event->{fn.rsplit('::', 1)[-1]}"
-        if len(ss) != 1:
-            res.violated(rid, key, f"{len(ss)} call sites of {fn.rsplit('::', 1)[-1]} in process_event (expected exactly 1)", where=f"{b.file}:{b.line}")
-            continue
-        s = ss[0]
-        again = b.pos_reach_set(s.pos, removed=frozenset(nexts))
+    senders = {c for c in tree if c != pe and P.body(c) is not None and P.body(c).calls(is_appender_send)}
+    sites = [e for e in b.calls() if e.callee_resolved in senders or is_appender_send(e)]
+    if not sites:
+        res.violated(rid, "process_event:send-sites", "process_event reaches no appender send", where=f"{b.file}:{b.line}")
+    for k, sd in enumerate(sites):
+        key = f"process_event:send-site#{k}"
+        again = b.pos_reach_set(sd.pos, removed=frozenset(nexts))
         dup = [x for x in sites if x.pos in again]
-        in_loop = s.pos in b.pos_reach_set(s.pos)
+        in_loop = sd.pos in b.pos_reach_set(sd.pos)
         if dup:
-            res.violated(rid, key, f"after the send at {s.loc} another appender send ({dup[0].loc}) is reachable within the same loop iteration: an appender can get the event twice", where=s.loc)
+            res.violated(rid, key, f"after the send at {sd.loc} another appender send ({dup[0].loc}) is reachable within the same loop iteration: an appender can get the event twice", where=sd.loc)
         elif not in_loop:
-            res.violated(rid, key, f"the send at {s.loc} is not inside the per-appender loop", where=s.loc)
+            res.violated(rid, key, f"the send at {sd.loc} is not inside the per-appender loop", where=sd.loc)
         else:
-            res.holds(rid, key, "one call site, inside the per-appender loop, no second send before the iterator advances", where=s.loc, obligations=2)
+            res.holds(rid, key, "inside the per-appender loop, no second send before the iterator advances", where=sd.loc, obligations=2)
 
 
 def clause2(P, res):
     rid = "C19-2"
-    res.rule(rid, "Block means block: in send_bytes and send_event the OverflowPolicy::Block arm performs the blocking `send`, never try_send")
-    for nm in ("send_bytes", "send_event"):
-        b = P.body(f"fibre_logging::subscriber::processor::EventProcessor::{nm}")
-        if b is None:
-            res.unclassified(rid, nm, "helper not found")
+    res.rule(rid, "Block means block: wherever the dispatch path writes an appender channel, the write sits on an arm of a match on the appender's OverflowPolicy, and the "
+                  "Block arm performs the blocking `send`, never try_send")
+    found = 0
+    for b in bodies(P):
+        sends_all = b.calls(is_appender_send)
+        if not sends_all:
             continue
+        found += 1
         edges = []
         for blk in range(len(b.blocks)):
             t = b.term(blk)
             if not b.is_cleanup(blk) and t["k"] == "switch" and t.get("on", {}).get("adt", "").endswith("OverflowPolicy"):
                 edges.extend(b.edges_by_label(blk).get("Block", []))
         if not edges:
-            res.violated(rid, b.id, "no match on the overflow policy: the Block policy is not honoured", where=f"{b.file}:{b.line}")
+            res.violated(rid, b.id, "appender channel written without a match on the overflow policy: the Block policy is not honoured", where=f"{b.file}:{b.line}")
             continue
         region = b.entry_reach_set() - b.entry_reach_set(removed_edges=frozenset(edges))
-        sends = [e for e in b.calls(is_appender_send) if e.pos in region]
+        sends = [e for e in sends_all if e.pos in region]
         blocking = [e for e in sends if e.method == "send"]
         lossy = [e for e in sends if e.method != "send"]
         if blocking and not lossy:
@@ -97,6 +105,8 @@ def clause2(P, res):
         else:
             res.violated(rid, b.id, "the Block arm does not perform a blocking send" + (f" (uses {lossy[0].method} at {lossy[0].loc})" if lossy else ""),
                          where=f"{b.file}:{b.line}")
+    if found < 1:
+        res.unclassified(rid, "send-bodies", "no body writes an appender channel", where="rules/c19.py")
 
 
 def clause3(P, res):
